@@ -361,7 +361,7 @@ func init() {
 			DeferredMetaType,
 			undefTypeDefault,
 			richDataArrayTypeDefault,
-			richDataHashTypeDefault}}, nil}
+			richDataHashTypeDefault}}, nil, false}
 
 	dataArrayTypeDefault.typ = dataTypeDefault
 	dataHashTypeDefault.valueType = dataTypeDefault
